@@ -3,7 +3,6 @@ use crate::encoder::{encode, Encodable};
 use crate::errors::{Error, Result};
 use crate::jsontypes::{FacebookScopeMapping, FacebookSources, RawSourceMap};
 use crate::types::{DecodedMap, RewriteOptions, SourceMap};
-use crate::utils::greatest_lower_bound;
 use crate::vlq::parse_vlq_segment_into;
 use crate::Token;
 use std::io::{Read, Write};
@@ -110,11 +109,13 @@ impl SourceMapHermes {
         // https://github.com/facebook/metro/blob/63b523eb20e7bdf62018aeaf195bb5a3a1a67f36/packages/metro-symbolicate/src/SourceMetadataMapConsumer.js#L204-L231
         // Mappings use 1-based index for lines, and 0-based index for cols, as seen here:
         // https://github.com/facebook/metro/blob/f2d80cebe66d3c64742f67259f41da26e83a0d8d/packages/metro/src/Server/symbolicate.js#L58-L60
-        let (_mapping_idx, mapping) = greatest_lower_bound(
-            &function_map.mappings,
-            &(token.get_src_line().checked_add(1)?, token.get_src_col()),
-            |o| (o.line, o.column),
-        )?;
+        // Metro picks the *last* mapping at or before the position (upper bound - 1).
+        let key = (token.get_src_line().checked_add(1)?, token.get_src_col());
+        let mapping_idx = function_map
+            .mappings
+            .partition_point(|o| (o.line, o.column) <= key)
+            .checked_sub(1)?;
+        let mapping = function_map.mappings.get(mapping_idx)?;
         function_map
             .names
             .get(mapping.name_index as usize)
